@@ -608,7 +608,31 @@ def gen_small_cases(tree_idx, relation_indices):
     return cases
 
 
+def gen_alias_nested_cases(rng, n):
+    """'anything' rules whose NAMED subjects include a package together with some of its own sub modules, next to unrelated
+    subjects with short / long names sorting before and after them (3-6 subjects)."""
+    cases = []
+    while len(cases) < n:
+        pool = rng.choice((COLLISION_FREE, ADVERSARIAL, LARGE_POOL, ["core", "api_controllers_and_views", "db", "ext", "x", "core_utils"]))
+        nodes = rand_tree(rng, pool, max_nodes=rng.choice([10, 16, 24]), max_depth=5)
+        nested = [(a, b) for a in nodes for b in nodes if a != "r" and b.startswith(a + ".")]
+        if not nested:
+            continue
+        P, C = rng.choice(nested)
+        others = [x for x in nodes if x not in (P, C, "r") and not related(x, P)]
+        rng.shuffle(others)
+        subj = [P, C] + others[:rng.randint(1, 4)] + ([rng.choice([b for a, b in nested if a == P])] if rng.random() < 0.3 else [])
+        subj = list(dict.fromkeys(subj))
+        rng.shuffle(subj)
+        edges = rand_edges(rng, nodes, 20)
+        specs = [dict(subj=("named", subj), verbs=["should_not"], imp=imp, anything=True) for imp in (True, False)]
+        cases.append(dict(nodes=nodes, edges=edges, specs=specs, mode="direct", tag=("alias_nested",)))
+    return cases
+
+
 def gen_random_cases(rng, n, strict, mode="direct", pools=(COLLISION_FREE, ADVERSARIAL)):
+    if mode == "alias_nested":
+        return gen_alias_nested_cases(rng, n)
     cases = []
     large = mode == "large"       # beyond the sizes of hand-written examples: up to 45 modules, 7 levels, 6 subjects x 6 objects, 30 imports
     if large:
@@ -655,6 +679,28 @@ def check_rule_cases(cases, use_oracle=True, lines=False):
             case = dict(nodes=c["nodes"], edges=c["edges"], observed=c.get("obs"), spec=_jsonable_spec(spec), mode=c.get("mode", "direct"),
                         impl=[io[0], io[1][:400]], model=[mo[0], _jsonable_lines(mo[1])])
             bad_model = not same_verdict(io, mo) or (lines and not same_lines(io, mo))
+            # 'should not import / be imported by anything' with NAMED subjects that may be related (a package listed together with
+            # its own sub modules): the documented meaning does not depend on relatedness - no import between a module of some
+            # subject and a module outside every subject
+            if (not strict) and use_oracle and spec.get("anything") and spec.get("subj") is not None and spec["subj"][0] == "named" \
+                    and spec.get("verbs") == ["should_not"] and all(n in c["nodes"] for n in spec["subj"][1]):
+                st("alias_related")
+                onodes, oedges = c.get("obs", (c["nodes"], c["edges"]))
+                E = {(a, b) for (a, b) in oedges if not (b.startswith(a + ".") and b.count(".") == a.count(".") + 1)}
+                inside = {x for x in onodes if any(anc(sn, x) for sn in spec["subj"][1])}
+                if spec["imp"]:
+                    exp = frozenset(("C", a, b) for (a, b) in E if a in inside and b not in inside)
+                else:
+                    exp = frozenset(("C", b, a) for (a, b) in E if b in inside and a not in inside)
+                if io[0] == "ERR" or (io[0] == "PASS") != (len(exp) == 0):
+                    case["documented_lines"] = _jsonable_lines(exp)
+                    out["violations"].append((case, f"verdict {io[0]} but documented semantics say {'pass' if not exp else 'fail'}: {spec_key(spec)}", _tags(c, spec, io)))
+                    continue
+                if lines and io[0] == "FAIL" and parse_message(io[1]) != exp:
+                    case["documented_lines"] = _jsonable_lines(exp)
+                    case["reported_lines"] = _jsonable_lines(parse_message(io[1]) or [])
+                    out["violations"].append((case, f"reported lines differ from the rule's violating set: {spec_key(spec)}", _tags(c, spec, io)))
+                    continue
             if strict and use_oracle:
                 st("strict")
                 onodes, oedges = c.get("obs", (c["nodes"], c["edges"]))
